@@ -23,7 +23,7 @@ impl Property for C11 {
          oracle = objective evaluated exactly on ALL 2^n assignments + multilinear reduction (unique representation); non-trivial = n>=3 and (a monomial with a repeated id or a cancelling pair); distinct = sha256(instance, mode)"
     }
     fn required_labels(&self) -> Vec<String> {
-        ["x^2", "cancel", "deg>2-collapses-to-pair", "refusal=constraint", "refusal=maximize", "refusal=non-binary", "refusal=qubo-3-distinct", "refusal=qubo-3-distinct-with-a-repeated-id", "format=pubo", "format=qubo", "regime=general", "regime=dyadic", "removed-constraint-present", "objective-absent", "unused-non-binary-variable", "non-binary-variable-in-removed-constraint", "id=u64::MAX", "objective-absent+refusal", "largest-id-at-word-boundary", "sweep=many-raw-terms", "refusal=constraint-with-zero-function", "shuffled-variable-list", "recorded-parameter-id-is-a-binary-id"].iter().map(|s| s.to_string()).collect()
+        ["x^2", "cancel", "deg>2-collapses-to-pair", "refusal=constraint", "refusal=maximize", "refusal=non-binary", "refusal=qubo-3-distinct", "refusal=qubo-3-distinct-with-a-repeated-id", "format=pubo", "format=qubo", "regime=general", "regime=dyadic", "removed-constraint-present", "objective-absent", "unused-non-binary-variable", "non-binary-variable-in-removed-constraint", "id=u64::MAX", "objective-absent+refusal", "largest-id-at-word-boundary", "sweep=many-raw-terms", "sweep=full-symmetric-matrix", "refusal=constraint-with-zero-function", "shuffled-variable-list", "recorded-parameter-id-is-a-binary-id"].iter().map(|s| s.to_string()).collect()
     }
     fn cases(&self, tier: Tier) -> usize {
         match tier {
@@ -36,23 +36,38 @@ impl Property for C11 {
     }
 
     fn sweep_len(&self, _tier: Tier) -> usize {
-        BIG_TERMS.len() * 2
+        BIG_TERMS.len() * 2 + 4
     }
     fn sweep_description(&self) -> Option<String> {
         Some("objectives written as 255, 256, 257, 314 and 600 raw (un-merged) terms of degree <= 2 over 8 binary variables (x_i x_j next to x_j x_i, x_i^2 next to x_i), exported as QUBO and as PUBO, compared on all 256 assignments".into())
     }
     fn sweep_case(&self, _tier: Tier, i: usize, ctx: &mut Ctx) -> PResult {
-        let nt = BIG_TERMS[i / 2];
+        let full_matrix = i >= BIG_TERMS.len() * 2;
+        let nt = if full_matrix { [144usize, 256][(i - BIG_TERMS.len() * 2) / 2] } else { BIG_TERMS[i / 2] };
         let qubo = i % 2 == 0;
-        ctx.label("sweep=many-raw-terms");
+        ctx.label(if full_matrix { "sweep=full-symmetric-matrix" } else { "sweep=many-raw-terms" });
         ctx.nontrivial();
         ctx.fp_dbg(&("many-raw-terms", nt, qubo));
         ctx.sample_with(|| json!({"sweep": "many raw terms", "terms": nt, "format": if qubo { "qubo" } else { "pubo" }}));
-        let n = 8u64;
+        // (a) raw polynomial terms over 8 variables; (b) a Quadratic holding the FULL symmetric matrix of 12 / 16
+        // variables in row-major order (both triangles and the diagonal: 144 / 256 strictly ascending (row, column) pairs)
+        let n = if full_matrix { (nt as f64).sqrt() as u64 } else { 8u64 };
         let seed = 17 + nt as u64;
         let h = |k: u64, salt: u64| (derived_coeff(seed ^ salt, k).abs() * 16.0) as u64;
         let mut p = v1::Polynomial::default();
-        for k in 0..nt as u64 {
+        let mut qm = v1::Quadratic::default();
+        if full_matrix {
+            for r in 0..n {
+                for c in 0..n {
+                    qm.rows.push(r);
+                    qm.columns.push(c);
+                    // symmetric values
+                    qm.values.push(derived_coeff(seed, r.min(c) * n + r.max(c)));
+                }
+            }
+            qm.linear = Some(crate::mk::linear((0..n).map(|k| (k, derived_coeff(seed ^ 5, k))).collect(), 2.5));
+        }
+        for k in 0..(if full_matrix { 0 } else { nt as u64 }) {
             let (a, b) = (h(k, 1) % n, (h(k, 2) + k) % n);
             let ids = match h(k, 3) % 4 {
                 0 => vec![a],
@@ -62,7 +77,7 @@ impl Property for C11 {
             p.terms.push(crate::mk::monomial(ids, derived_coeff(seed, k)));
         }
         p.terms.push(crate::mk::monomial(vec![], 2.5));
-        let obj = crate::mk::fpoly(p);
+        let obj = if full_matrix { crate::mk::fquad(qm) } else { crate::mk::fpoly(p) };
         let mut inst = v1::Instance::default();
         inst.sense = SENSE_MIN;
         for id in 0..n {
